@@ -75,3 +75,26 @@ func worldFinish(run *h.Run) {
 
 func ev(k, a string) w.Event             { return w.Event{K: k, A: a} }
 func evb(k, a, b string) w.Event         { return w.Event{K: k, A: a, B: b} }
+
+// runWorld explores the scenarios with the monitors; stops at the first scenario with an unlisted violation.
+func runWorld(t *testing.T, run *h.Run, scs []scOpt, mons []func(*w.MonCtx), maxStates int) {
+	for _, o := range scs {
+		o.mons = mons
+		sc := mkScenario(t, o)
+		explore(t, run, sc, maxStates)
+		if run.HasUnknownViolation() {
+			break
+		}
+	}
+	worldFinish(run)
+}
+
+// requireAntecedents fails the check itself (exit 2) when a key monitor never had a true antecedent.
+func requireAntecedents(run *h.Run, names ...string) {
+	for _, n := range names {
+		if run.Counter("antecedent:"+n) == 0 && !run.HasUnknownViolation() {
+			fmt.Printf("HARNESS ERROR: antecedent %q never true (vacuous check)\n", n)
+			exit(2)
+		}
+	}
+}
